@@ -2014,7 +2014,8 @@ def sstr_method(it, fr, s, attr, args, kw):
     if attr == 'islower' and not args:
         return SBool(z3.And(all_chars(s, lambda c: z3.Not(CT.cp('upperish', c))), any_char(s, lambda c: CT.cp('islower', c))))
     if attr == 'isupper' and not args:
-        raise Unsupported('str.isupper')
+        # CPython: false on the first lower-case or title-case character, else true iff some character is upper-case
+        return SBool(z3.And(all_chars(s, lambda c: z3.Not(CT.cp('lowerish', c))), any_char(s, lambda c: CT.cp('isupper', c))))
     if attr == 'lower' and not args:
         return SLowered(s, it, 'lowfix')
     if attr == 'upper' and not args:
